@@ -74,12 +74,14 @@ def split_type(t):
 class Bench:
     """One real zone of a given kind/relativize setting plus argument builders."""
 
-    def __init__(self, kind, relativize, pruning_policy=None):
+    def __init__(self, kind, relativize, pruning_policy=None, zone=None):
         dns = _dns
         self.kind = kind
         self.relativize = relativize
         self.origin = dns.name.from_text(ORIGIN)
-        if kind == "plain":
+        if zone is not None:
+            self.zone = zone
+        elif kind == "plain":
             self.zone = dns.zone.Zone(self.origin, relativize=relativize)
         elif kind == "versioned":
             self.zone = dns.versioned.Zone(self.origin, relativize=relativize, pruning_policy=pruning_policy)
@@ -87,6 +89,7 @@ class Bench:
             self.zone = dns.btreezone.Zone(self.origin, relativize=relativize, pruning_policy=pruning_policy)
         self._rd_cache = {}
         self._rid_cache = {}
+        self.handed_in = []  # rdataset / rrset objects the client passed to transactions
 
     # ---- names ----
     def absname(self, spec):
@@ -152,7 +155,30 @@ class Bench:
     def rdataset(self, t, ttl, texts, rdclass="IN"):
         dns = _dns
         rds = dns.rdataset.from_rdata_list(ttl, [self.rdata(t, x, rdclass) for x in texts])
+        if len(self.handed_in) < 200:
+            self.handed_in.append(rds)
         return rds
+
+    def scribble_on_handed_in(self):
+        """The client keeps using (and mutating) the objects it passed in earlier; whatever the
+        zone stored must not be aliased to them."""
+        if self.kind == "plain":
+            # a plain dns.zone.Zone takes ownership of the rdataset objects it is given
+            # (documented for Node.replace_rdataset), so aliasing is by design there
+            self.handed_in = []
+            return 0
+        evil = self.rdata("A", "10.6.6.6")
+        evil_txt = self.rdata("TXT", '"scribble"')
+        n = 0
+        for obj in self.handed_in:
+            for fn in (lambda: obj.add(evil if obj.rdtype == 1 else evil_txt), lambda: obj.update_ttl(0), lambda: obj.clear()):
+                try:
+                    fn()
+                    n += 1
+                except Exception:  # noqa: BLE001
+                    pass
+        self.handed_in = []
+        return n
 
     # ---- content extraction in model form ----
     def to_abs(self, name):
@@ -210,6 +236,8 @@ def apply_real(b, txn, op):
         if f == "rrset":
             rds = b.rdataset(t, op["ttl"], op["rd"], rdclass)
             rrset = dns.rrset.from_rdata_list(b.name_obj(op["n"], op["nf"]), op["ttl"], list(rds))
+            if len(b.handed_in) < 200:
+                b.handed_in.append(rrset)
             return fn(rrset)
         name = b.name_arg(op["n"], op["nf"])
         if f == "rdataset":
@@ -414,6 +442,32 @@ def stable_hash(snapshot):
 
     items = sorted((n.to_text().lower(), k, ttl, tuple(sorted((t, w.hex()) for t, w in rids))) for n, k, ttl, rids in snapshot)
     return h64(items) & 0xFFFFFFFF
+
+
+def base_as_text(ops):
+    """The initial load as master-file text that names the origin only through $ORIGIN."""
+    lines = ["$ORIGIN " + ORIGIN]
+    for op in ops:
+        assert op["o"] == "add"
+        t = op["t"].split(":")[0]
+        for rd in op["rd"]:
+            lines.append(f"{op['n']} {op['ttl']} IN {t} {rd}")
+    return "\n".join(lines) + "\n"
+
+
+def load_bench_from_text(kind, relativize, ops):
+    """A zone created without an origin argument: the origin is learnt from the text."""
+    dns = _dns
+    factory = {"plain": dns.zone.Zone, "versioned": dns.versioned.Zone, "btree": dns.btreezone.Zone}[kind]
+    try:
+        z = dns.zone.from_text(base_as_text(ops), relativize=relativize, zone_factory=factory, check_origin=False)
+    except Exception as e:  # noqa: BLE001
+        raise Violation("load-failed", f"[{kind}/{'rel' if relativize else 'abs'}] from_text() of a zone that names its origin with $ORIGIN raised {type(e).__name__}: {e}")
+    b = Bench(kind, relativize, zone=z)
+    m = RefZone(b.origin)
+    for op in ops:
+        apply_model(b, m, op)
+    return b, m
 
 
 def describe(op):
